@@ -542,9 +542,9 @@ by condition.assertConditionExpressionValue.
 func (r condition) defaultAssertionExpressionHandler(x any) (X any) {
 	// no push policy, so we'll see if the basic
 	// guidelines were satisfied, at least ...
-	// a native Stack is a Stack whether or not it has been initialised
-	_, native := x.(Stack)
-	if _, ok := stackTypeAliasConverter(x); ok || native {
+	// a Stack is a Stack - native, alias or pointer -
+	// whether or not it has been initialised
+	if isStackKind(x) {
 		if r.positive(nnest) {
 			return
 		}
@@ -979,8 +979,7 @@ isNesting is a private method called by Condition.IsNesting.
 func (r condition) isNesting() bool {
 	// If convertible is true, we know the
 	// instance (tv) is a stack alias.
-	_, convertible := stackTypeAliasConverter(r.ex)
-	return convertible
+	return isStackKind(r.ex)
 }
 
 /*
